@@ -28,7 +28,7 @@ def dump_mir(overflow_checks):
     env = dict(os.environ)
     env["CARGO_NET_OFFLINE"] = "true"
     env.pop("RUSTFLAGS", None)
-    cmd = ["cargo", "+nightly", "rustc", "--offline", "--lib", "--no-default-features", "--target-dir", os.path.join(WORK, "target-mir-" + flag), "--",
+    cmd = ["cargo", "+nightly", "rustc", "--offline", "--lib", "--no-default-features", "--features", "copy,sort,translate", "--target-dir", os.path.join(WORK, "target-mir-" + flag), "--",
            "-Zunpretty=mir", "-C", f"overflow-checks={flag}", "-C", f"debug-assertions={flag}"]
     p = subprocess.run(cmd, cwd=src, env=env, capture_output=True, text=True, timeout=600)
     if p.returncode != 0 or "fn " not in p.stdout:
@@ -111,6 +111,15 @@ class ExecB(mirsmt.Exec):
                     tup = args[1] if len(args) > 1 else Tup([])
                     return name, [args[0]] + (list(tup.fs) if isinstance(tup, Tup) else [tup])
             return None, args
+        m = re.fullmatch(r"<Self as (.+?)>::(\w+)", strip_last_generics(callee))
+        if m and args:
+            recv = mirsmt.val_of(args[0])
+            sname = getattr(recv, "sname", None)
+            meth = m.group(2)
+            if sname:
+                for name, f in self.fns.items():
+                    if "impl at" in name and name.endswith("::" + meth) and f.args and re.search(r"\b" + sname + r"<", f.args[0][1]) and len(f.args) == len(args):
+                        return name, args
         return self.resolve(callee), args
 
     def resolve(self, callee):
@@ -163,6 +172,9 @@ def run_kernel(k, fns, wrapping, fields, budget):
             models = [(r"::(num_cols|num_rows|stride)$", getter_model(fields)),
                       (r"TooDee::<T>::data(_mut)?$|TooDeeViewCommon<T>>::data$|::data(_mut)?$", data_model)] + mirsmt.STD_MODELS
             ex = ExecB(fns, wrapping, models)
+            if getattr(k, "unroll", 0):
+                ex.unroll = k.unroll
+                ex.max_paths = 60000
             st = mirsmt.State(sym, wrapping)
             kernels.tup_order[0] = fields
             if getattr(k, "needs_state", False):
@@ -191,11 +203,13 @@ def run_kernel(k, fns, wrapping, fields, budget):
             out["paths"] += 1
             # a callee that unwinds is a panic of the kernel
             okind = "panic" if o.kind == "unwind" else o.kind
+            if o.kind == "cut" and not getattr(k, "unroll", 0):
+                continue
             if getattr(k, "needs_state", False):
                 post = k.post(okind, o.state.events, o.value, d, state=o.state)
             else:
                 post = k.post(okind, o.state.events, o.value, d)
-            if post == "true":
+            if post == "true" or re.fullmatch(r"\(and true\s*\)", post):
                 continue
             base = ctx.assume + o.state.pc + [f"(not {post})"]
             names_in = list(ctx.inputs.values())
@@ -346,6 +360,8 @@ def witness_to_replay(k, wit):
         return f"b_access_r{recv}_a{acc}", [g("cols"), g("rows"), stride, col, row]
     if r[0] == "b_view":
         return f"b_view_{0 if r[1] == 'owned' else 1}", [g("cols"), g("rows"), g("stride", g("cols")), g("start_c"), g("start_r"), g("end_c"), g("end_r")]
+    if r[0] == "b_copy_within":
+        return f"b_copy_within_{0 if r[1] == 'owned' else 1}", [g("cols"), g("rows"), g("stride", g("cols")), g("tl_c"), g("tl_r"), g("br_c"), g("br_r"), g("dest_c"), g("dest_r")]
     if r[0] == "b_unchecked":
         recv = recv_i[r[1]]
         acc = (6 if r[2] == "cell" else 7) + (2 if r[3] else 0)
